@@ -390,6 +390,9 @@ class DFState:
 
     def __init__(self):
         self.transitions = []
+        # Actions chained "at the end" of a DFA whose starting state is accepting (the empty path has no transition that could carry them); they are
+        # attached to whatever is joined after this state.
+        self.exit_actions = []
         DFState.all_states[id(self)] = self
 
     def transition(self, transition, allow_replace=False, allow_replace_if=None, collapse_else=True):
@@ -894,7 +897,10 @@ class DFA:
         # transitions going into the sub_states, instead of on transitions coming out of them that we generate. This adds more opportunities
         # for "unable to schedule strict"-type errors, but avoids missing actions in these cases.
         if chain_actions and chained_dfa.starting_state in chained_dfa.accepting_states:
-            self.chain_actions_into(chain_actions, sub_states)
+            for sub_state in sub_states:
+                if sub_state is self.starting_state:
+                    sub_state.exit_actions = sub_state.exit_actions + list(chain_actions) # (see chain_actions_at_end)
+            self.chain_actions_into(chain_actions, [x for x in sub_states if x is not self.starting_state])
             chain_actions = [] # Since the actions are already handled, don't try to add them to new transitions.
 
         # Check for ambiguity: if any transitions added to a sub_state try to redirect a valid character a different valid
@@ -979,7 +985,7 @@ class DFA:
 
                 # Create transition to add
                 culled_transition.on_values = list(relevant_values | irrelevant_values)
-                culled_transition.attach(*chain_actions, prepend=True)
+                culled_transition.attach(*sub_state.exit_actions, *chain_actions, prepend=True)
                 culled_chained_transitions.append(culled_transition)
 
             for new_transition in culled_chained_transitions:
@@ -1000,6 +1006,7 @@ class DFA:
             if chained_dfa.starting_state in chained_dfa.accepting_states:
                 for sub_state in sub_states:
                     self.mark_accepting(sub_state)
+                    sub_state.exit_actions = sub_state.exit_actions + chained_dfa.starting_state.exit_actions
 
             for state in chained_dfa.accepting_states:
                 self.mark_accepting(state)
@@ -1023,7 +1030,14 @@ class DFA:
                         trans.attach(action)
 
     def chain_actions_at_end(self, actions: Iterable["Action"]):
-        self.chain_actions_into(actions, self.accepting_states)
+        actions = list(actions)
+        targets = list(self.accepting_states)
+        if actions and self.starting_state in targets:
+            # Nothing leads into the starting state (yet), and what does will not be leaving through it: keep the actions for the transitions
+            # that get joined after it.
+            targets.remove(self.starting_state)
+            self.starting_state.exit_actions = self.starting_state.exit_actions + actions
+        self.chain_actions_into(actions, targets)
 
 # =============
 # DEBUG STORAGE
@@ -4039,12 +4053,15 @@ class LoopNode(ActionSinkNode, ActionSourceNode):
         # If there are error-handling transitions on the accept node, point them to the starting node as fallthrough (so that anything that _isn't_ getting matched by 
         # the last node gets forwarded to the start, looping). If there are no transitions on the final node, point everything to the start.
         for accept_state in sub_dfa.accepting_states:
+            if any(isinstance(x, BreakAction) for x in accept_state.exit_actions):
+                # (the exit would have to be joined to what follows the loop, which is not known here)
+                raise IllegalDFAStateError("Break reached without consuming any input since the start of the loop body", accept_state)
             for trans in accept_state.transitions:
                 if trans.error_handling:
-                    trans.handles_else(False).fallthrough().to(sub_dfa.starting_state).attach(*self.loop_start_actions)
+                    trans.handles_else(False).fallthrough().to(sub_dfa.starting_state).attach(*accept_state.exit_actions, *self.loop_start_actions)
             if accept_state[DFTransition.Else] is None:
                 # no transitions at all, or only the continuation of a longer alternative (greedy case): everything else starts the next iteration
-                accept_state[DFTransition.Else] = DFTransition(fallthrough=True).to(sub_dfa.starting_state).attach(*self.loop_start_actions)
+                accept_state[DFTransition.Else] = DFTransition(fallthrough=True).to(sub_dfa.starting_state).attach(*accept_state.exit_actions, *self.loop_start_actions)
 
         for state in sub_dfa.states:
             parent_dfa.add(state)
